@@ -43,6 +43,8 @@ pub fn run_check(context: &CheckContext) -> CheckOutcome {
     }
     if witness_report.evaluations > 0 { outcome.reports.push(witness_report); }
     if !outcome.violations.is_empty() { return outcome; }
+    if context.property == "C14" { return run_c14(context, outcome); }
+    if context.property == "C12" { return run_c12(context, outcome); }
     let campaigns = seq_campaigns(&context.property);
     if !campaigns.is_empty() { outcome.assumptions.extend(seq_assumptions()); }
     for campaign in campaigns {
@@ -56,6 +58,118 @@ pub fn run_check(context: &CheckContext) -> CheckOutcome {
     outcome
 }
 
+fn run_c14(context: &CheckContext, mut outcome: CheckOutcome) -> CheckOutcome {
+    use crate::sketch::*;
+    outcome.assumptions = vec![
+        "SKETCH: the packed rows, the count-min sketch and TinyLFU are driven through thin public wrappers (feature verif_hooks) that delegate to the crate-private types".to_string(),
+        "the unpacked reference (one u8 per counter) reads the random row seeds through the wrapper; the first-access filter (bloom filter with random keys) is observed before each access and everything else predicted".to_string(),
+        "the byte table (256 values x both nibbles x 3 neighbour bytes) is enumerated completely; streams are explored".to_string(),
+    ];
+    let started = std::time::Instant::now();
+    let (evaluations, failure) = exhaustive_byte_table();
+    let mut table = CampaignReport { name: "byte-table".to_string(), engine: "SKETCH".to_string(), evaluations, distinct_nontrivial: evaluations, exhaustive: true,
+        rule: "all 256 packed byte values x both nibbles x neighbour byte in {0x00, 0xA5, 0xFF} x byte first/second: get, increment twice, halve, compared counter by counter with the unpacked reference; every entry is non-trivial (touches a packed byte next to a neighbour)".to_string(),
+        samples: vec![json!({"row": [0x9f, 0xa5], "ops": ["get_at(0)", "increment_at(0) x2", "half_counters", "get_at(1)"]})], wall_s: started.elapsed().as_secs_f64(), ..CampaignReport::default() };
+    if let Some(failure) = failure {
+        let replay = Replay { property: "C14".to_string(), engine: "SKETCH-TABLE".to_string(), campaign: "byte-table".to_string(), seed: context.seed, case: json!({}), policy: json!({}), failure: Some(failure.clone()), note: "exhaustive byte table; replay re-runs the whole table".to_string() };
+        table.violation = Some(json!({"failure": failure}));
+        outcome.reports.push(table);
+        outcome.violations.push(Violation { replay_path: write_replay(&replay), failure });
+        return outcome;
+    }
+    outcome.reports.push(table);
+    let cases = if context.tier == "thorough" { 200_000 } else { 6000 };
+    let max_ops = if context.tier == "thorough" { 120 } else { 60 };
+    let run_case: std::sync::Arc<dyn Fn(&SketchCase) -> CaseResult + Send + Sync> = std::sync::Arc::new(|case: &SketchCase| sketch_case_result(case));
+    let (report, found) = run_campaign(context, "streams", "SKETCH",
+        "generated access streams (hot keys, distinct, u64 extremes, same-position collisions h + j*total, neighbouring nibble h ^ 1, bursts up to 40) over counters in {1,2,3,5,17,100,1000, 2^k +- 1 <= 2^16, 1..300} at row / count-min / TinyLFU level; differential against the unpacked reference after every op; non-trivial = the stream saturates a counter, increments both nibbles of one byte, or crosses the ageing threshold",
+        cases, std::sync::Arc::new(move || sketch_case_strategy(max_ops)), run_case);
+    outcome.reports.push(report);
+    if let Some((case, failure)) = found {
+        let replay = Replay { property: "C14".to_string(), engine: "SKETCH".to_string(), campaign: "streams".to_string(), seed: context.seed, case: serde_json::to_value(&case).unwrap(), policy: json!({}), failure: Some(failure.clone()), note: "shrunk by proptest".to_string() };
+        outcome.violations.push(Violation { replay_path: write_replay(&replay), failure });
+    }
+    outcome
+}
+
+fn run_c12(context: &CheckContext, mut outcome: CheckOutcome) -> CheckOutcome {
+    use crate::ack::*;
+    use crate::base::St;
+    let thorough = context.tier == "thorough";
+    outcome.assumptions = vec![
+        "ACK: schedule points sit between the three statements of done() and the steps of poll(); a turnstile runs one step of one thread at a time and never schedules a step that would block on the waker slot, so an execution is a deterministic function of the choice vector".to_string(),
+        "memory-ordering weakenings (e.g. Relaxed on the flag) are invisible to a serialising controller on x86; only the stress layer could see them, by luck".to_string(),
+        "bounded shapes: <= 2 polling tasks, <= 3 polls per task; enumerated shapes are complete for their bound, the rest is sampled".to_string(),
+    ];
+    let push_violation = |outcome: &mut CheckOutcome, campaign: &str, case: serde_json::Value, engine: &str, failure: crate::model::Failure| {
+        let replay = Replay { property: "C12".to_string(), engine: engine.to_string(), campaign: campaign.to_string(), seed: context.seed, case, policy: json!({}), failure: Some(failure.clone()), note: "deterministic: the schedule is the choice vector".to_string() };
+        outcome.violations.push(Violation { replay_path: write_replay(&replay), failure });
+    };
+    // 1. exhaustive enumeration of bounded shapes
+    let started = std::time::Instant::now();
+    let mut shapes: Vec<Vec<Vec<PollSpec>>> = Vec::new();
+    let spec = |new_waker| PollSpec { new_waker };
+    shapes.push(vec![vec![spec(false)]]);
+    for second in [false, true] { shapes.push(vec![vec![spec(false), spec(second)]]); }
+    shapes.push(vec![vec![spec(false)], vec![spec(false)]]);
+    for second in [false, true] { for third in [false, true] { shapes.push(vec![vec![spec(false), spec(second), spec(third)]]); } }
+    for second in [false, true] { shapes.push(vec![vec![spec(false), spec(second)], vec![spec(false)]]); }
+    if thorough {
+        for second in [false, true] { for other in [false, true] { shapes.push(vec![vec![spec(false), spec(second)], vec![spec(false), spec(other)]]); } }
+        shapes.push(vec![vec![spec(false)], vec![spec(false)], vec![spec(false)]]);
+    }
+    let statuses: Vec<St> = if thorough { vec![St::Accepted, St::RejSpace, St::RejWeight, St::RejMissing, St::RejExists, St::ShuttingDown] } else { vec![St::Accepted, St::RejExists] };
+    let mut enumeration = CampaignReport { name: "enumerate".to_string(), engine: "ACK".to_string(), exhaustive: true,
+        rule: "every schedule (interleaving of the steps of done() with the steps of the polls, waker slot respected) of each bounded shape is enumerated by stateless depth-first search; non-trivial = at least one poll step lies strictly between two steps of done(); each (shape, status, schedule) is distinct by construction".to_string(), ..CampaignReport::default() };
+    let jobs: Vec<(St, Vec<Vec<PollSpec>>)> = statuses.iter().flat_map(|status| shapes.iter().map(move |shape| (*status, shape.clone()))).collect();
+    let results: Vec<(u64, u64, Option<(AckCase, crate::model::Failure)>, bool)> = std::thread::scope(|scope| {
+        let handles: Vec<_> = jobs.iter().map(|(status, shape)| scope.spawn(move || enumerate_shape(*status, shape, if thorough { 3_000_000 } else { 200_000 }))).collect();
+        handles.into_iter().map(|handle| handle.join().unwrap()).collect()
+    });
+    for ((status, shape), (explored, nontrivial, failure, complete)) in jobs.iter().zip(results.into_iter()) {
+        enumeration.evaluations += explored;
+        enumeration.distinct_nontrivial += nontrivial;
+        if !complete { enumeration.exhaustive = false; }
+        if enumeration.samples.len() < 3 { enumeration.samples.push(json!({"status": status, "tasks": shape, "schedules": explored, "complete": complete})); }
+        if let Some((case, failure)) = failure {
+            if outcome.violations.is_empty() { push_violation(&mut outcome, "enumerate", serde_json::to_value(&case).unwrap(), "ACK", failure); }
+        }
+    }
+    enumeration.wall_s = started.elapsed().as_secs_f64();
+    outcome.reports.push(enumeration);
+    if !outcome.violations.is_empty() { return outcome; }
+    // 2. random schedules over larger shapes
+    let run_case: std::sync::Arc<dyn Fn(&AckCase) -> CaseResult + Send + Sync> = std::sync::Arc::new(|case: &AckCase| ack_case_result(case));
+    let (report, found) = run_campaign(context, "random-schedules", "ACK",
+        "generated (final status, 1-2 polling tasks, 1-3 polls each, same/new waker per poll, choice vector); non-trivial = a poll step lies strictly between two steps of done(); distinct by hash of the case",
+        if thorough { 200_000 } else { 12_000 }, std::sync::Arc::new(ack_case_strategy), run_case);
+    outcome.reports.push(report);
+    if let Some((case, failure)) = found { push_violation(&mut outcome, "random-schedules", serde_json::to_value(&case).unwrap(), "ACK", failure); return outcome; }
+    // 3. end-to-end stress on a real cache
+    let started = std::time::Instant::now();
+    let puts: u64 = if thorough { 400_000 } else { 40_000 };
+    let threads = context.workers.min(8) as u64;
+    let results: Vec<(StressReport, Option<crate::model::Failure>)> = std::thread::scope(|scope| {
+        let handles: Vec<_> = (0..threads).map(|index| scope.spawn(move || stress(puts, context.seed ^ (index << 32)))).collect();
+        handles.into_iter().map(|handle| handle.join().unwrap()).collect()
+    });
+    let mut stress_report = CampaignReport { name: "stress".to_string(), engine: "ACK-E2E".to_string(),
+        rule: "real cache, queue of 4: each put's acknowledgement is busy-polled (7 of 8) or polled-then-parked on its waker (1 of 8) while the worker completes it; Ready(Accepted) must make get() return the value at once; non-trivial = a put whose first poll was Pending (the poll raced the worker); counted per put".to_string(), ..CampaignReport::default() };
+    for (report, failure) in results {
+        stress_report.evaluations += report.puts;
+        stress_report.distinct_nontrivial += report.raced_puts;
+        if stress_report.samples.is_empty() { stress_report.samples.push(serde_json::to_value(&report).unwrap()); }
+        if let Some(failure) = failure {
+            if failure.property == "STALL" || failure.property == "C12" {
+                if outcome.violations.is_empty() { push_violation(&mut outcome, "stress", json!({"puts": puts}), "ACK-STRESS", failure); }
+            }
+        }
+    }
+    stress_report.wall_s = started.elapsed().as_secs_f64();
+    outcome.reports.push(stress_report);
+    outcome
+}
+
 /// Re-runs a saved case; exit code as for a check.
 pub fn replay_file(property: &str, path: &str) -> i32 {
     let replay = match read_replay(path) {
@@ -64,6 +178,10 @@ pub fn replay_file(property: &str, path: &str) -> i32 {
     };
     let result = match replay.engine.as_str() {
         "SEQ" => replay_seq(&replay),
+        "ACK" => decode_case::<crate::ack::AckCase>(&replay.case).map(|case| crate::ack::run_ack_case(&case).1),
+        "ACK-STRESS" => Ok(crate::ack::stress(replay.case["puts"].as_u64().unwrap_or(40_000), replay.seed).1),
+        "SKETCH" => decode_case::<crate::sketch::SketchCase>(&replay.case).map(|case| crate::sketch::run_sketch_case(&case).1),
+        "SKETCH-TABLE" => Ok(crate::sketch::exhaustive_byte_table().1),
         other => Err(format!("unknown engine {}", other)),
     };
     match result {
